@@ -151,6 +151,16 @@ ext("C12", "", " Forward-auth routes with copy_headers are part of the ingress p
 ext("C15", "; endpoint-scoped publish", " Managed routes and the endpoint-scoped publish path are generated (selector hints, managed off, unknown endpoint); batches may hold two invalid items of different kinds: the error names the first offending item of the validation phase that failed (body shape over the whole batch, then item by item, then ids already queued).", "publish_policy actor_allow / actor_prefix / fail_closed are not generated (direct, managed, allow_pull_routes, allow_deliver_routes, require_actor, require_request_id are); the crash part drives EnqueueBatch directly (the call a publish makes), not the HTTP handler; input sampling through the real wiring")
 ext("C18", "; traffic during a management mutation", " W-mgmt also lets a message arrive on the endpoint's current route after each statement of a management delete / move in turn: a refused call leaves file and running mapping untouched.")
 
+# wave 7
+ext("C01", "; write-lock contention from another process", " W-crash also lets another process hold the database write lock for the duration of a store call (SQLITE_BUSY through the VFS lock table; the busy handler's waits cost no real time): the call fails or succeeds as a whole and an answer 'stored' is held against the listing.")
+ext("C06", "; messages whose target is no longer configured", " Messages for a target their route no longer has share micro-batches with deliverable ones; the settlements of their batch mates still have to reach the store.")
+ext("C07", "; complete header set of every push delivery", " Push part: stored header names in non-canonical form; the complete header set of every delivery equals the message's own headers plus what the gateway adds - no header of another message.")
+ext("C11", "; admin tokens appearing / rotating / disappearing by reload", " Reloads add, rotate and remove admin_api tokens; Admin probes after each reload are judged by the configuration in force.")
+ext("C13", "; delivery-attempt records", " Delivery-attempt records with caller-supplied ids and times (out of recording order) and their listings (filters, limits) are part of the store and diff worlds: order (created_at desc, id desc) on every backend.")
+ext("C14", "; endpoint-scoped by-filter mutations", " Admin world: managed routes and the endpoint-scoped by-filter endpoints with every criterion (state, before cursor, limit, preview).")
+ext("C17", "", " Signed targets with percent-escapes, encoded slashes and query strings in their URLs; the signature is recomputed from the request as received.")
+ext("C20", "", " A symlink or hard link to the configured file passed as path is refused like any other foreign path; the link and its directory stay untouched.")
+
 NA = {
  "C19": "config Parse/Format/Compile are pure functions of the text: no schedule, clock, I/O or fault for a simulation to decide (DESIGN.md §5)",
 }
